@@ -158,12 +158,19 @@ def main(argv: list[str]) -> int:
     if args.replay:
         with open(args.replay) as fh:
             rec = json.load(fh)
-        still = mod.replay(rec, ctx)
+        from props._t1 import replay_if_t1
+
+        still = replay_if_t1(rec)
+        if still is None:
+            still = mod.replay(rec, ctx)
         print(("REPRODUCED" if still else "NOT-REPRODUCED") + f" property={args.prop} replay={args.replay}")
         return 1 if still else 0
 
     t0 = time.time()
     res: PropResult = mod.run(ctx)
+    from props._t1 import maybe_add_t1
+
+    res = maybe_add_t1(res, args.prop, ctx)
     wall = time.time() - t0
 
     findings = load_known_findings(args.prop)
